@@ -324,18 +324,48 @@ Example c09_sel_nonvacuous :
   end.
 Proof. vm_compute. repeat split. Qed.
 
-(* F-C09-1: the keepBlobs reduction of PlanPrune is wrong in the presence of ignorePacks.
-   Pack 1 = {1,2,3} present; pack 2 = {1,4} missing but still indexed; used = {1,2}; plan: repack 1,
-   ignore 2.  The reduction drops blob 1 because of the entry (2,1): the plan is invalid (blob 1 would
-   be lost), although the repository is consistent.  Skipping ignorePacks repairs it. *)
-Definition f1_R0 : repo := mkR [(1, [1; 2; 3])] [(1, [(1, 1); (1, 2); (1, 3)]); (2, [(2, 1); (2, 4)])].
-Definition f1_ents : list (N * N) := [(1, 1); (1, 2); (1, 3); (2, 1); (2, 4)].
-Lemma keep_reduction_refuted :
-  exists R0 used ents rmrep ignore ob,
-    Consistent R0 used /\
-    valid_planb R0 used (mkPl [] rmrep (rmrep ++ ignore) (keep_blobs used ents rmrep) ob) = false /\
-    valid_planb R0 used (mkPl [] rmrep (rmrep ++ ignore) (keep_blobs_fixed used ents rmrep ignore) ob) = true.
+(* ---------- the keepBlobs reduction (after the fix of F-C09-1) ---------- *)
+Lemma keep_blobs_sound used ents ex h :
+  In h used -> ~ In h (keep_blobs used ents ex) -> exists p, In (p, h) ents /\ ~ In p ex.
 Proof.
-  exists f1_R0, [1; 2], f1_ents, [1], [2], [1; 2]. split; [|split; vm_compute; reflexivity].
-  apply consistentb_iff. vm_compute. reflexivity.
+  intros Hu Hn. unfold keep_blobs in Hn.
+  destruct (existsb (fun e => if snd e =? h then negb (memN (fst e) ex) else false) ents) eqn:E.
+  - apply existsb_exists in E as [[p h'] [Hin E]]. cbn [fst snd] in E.
+    destruct (N.eqb_spec h' h) as [->|]; [|discriminate].
+    exists p. split; [exact Hin|]. apply memN_false. apply negb_true_iff in E. exact E.
+  - exfalso. apply Hn. apply filter_In. split; [exact Hu|]. rewrite E. reflexivity.
 Qed.
+
+(* For EVERY choice of the plan's pack sets: if the index is truthful outside the excluded packs (an
+   entry (p,h) with p not removed/repacked/ignored means p is present and contains h - what
+   decidePackAction establishes by aborting on missing needed packs and ignoring missing unneeded ones),
+   the plan with keepBlobs computed by the reduction is valid: a blob is dropped from keepBlobs only if
+   a copy outside the excluded packs can be loaded. *)
+Theorem keep_reduction_valid R0 used first rmv ex ob :
+  forallb (fun p => memN p ex) rmv = true ->
+  (forall p h, In (p, h) (ents_of R0) -> ~ In p ex -> pack_has R0 p h = true) ->
+  valid_planb R0 used (mkPl first rmv ex (keep_blobs used (ents_of R0) ex) ob) = true.
+Proof.
+  intros Hr Ht. unfold valid_planb. cbn [rm excl keep]. rewrite Hr. cbn [andb].
+  apply forallb_forall. intros h Hh.
+  destruct (memN h (keep_blobs used (ents_of R0) ex)) eqn:Ek; [reflexivity|].
+  apply memN_false in Ek. destruct (keep_blobs_sound _ _ _ _ Hh Ek) as [p [Hin Hp]].
+  unfold ents_of in Hin. apply in_flat_map in Hin as [[i es] [Hi He]]. cbn [snd] in He.
+  unfold sresb. apply existsb_exists. exists (i, es). split; [exact Hi|]. cbn [fst snd memN existsb].
+  apply existsb_exists. exists (p, h). split; [exact He|]. cbn [fst snd].
+  rewrite N.eqb_refl. apply memN_false in Hp. rewrite Hp. apply Ht; [|apply memN_false, Hp].
+  unfold ents_of. apply in_flat_map. exists (i, es). split; assumption.
+Qed.
+
+(* Regression witness of F-C09-1 (fixed in restic d2ae2f7f5).  Pack 1 = {1,2,3} present; pack 2 = {1,4}
+   missing but still indexed; used = {1,2}; plan: repack 1, ignore 2.  The reduction as it is now keeps
+   blob 1 and yields a valid plan; the old reduction (ignorePacks not skipped) dropped blob 1 because
+   of the entry (2,1) and produced an invalid plan on this consistent repository. *)
+Definition f1_R0 : repo := mkR [(1, [1; 2; 3])] [(1, [(1, 1); (1, 2); (1, 3)]); (2, [(2, 1); (2, 4)])].
+Example keep_reduction_regression :
+  consistentb f1_R0 [1; 2] = true /\
+  keep_blobs [1; 2] (ents_of f1_R0) [1; 2] = [1; 2] /\
+  valid_planb f1_R0 [1; 2] (mkPl [] [1] [1; 2] (keep_blobs [1; 2] (ents_of f1_R0) [1; 2]) [1; 2]) = true /\
+  keep_blobs_old [1; 2] (ents_of f1_R0) [1] = [2] /\
+  valid_planb f1_R0 [1; 2] (mkPl [] [1] [1; 2] (keep_blobs_old [1; 2] (ents_of f1_R0) [1]) [1; 2]) = false.
+Proof. vm_compute. repeat split. Qed.
